@@ -141,8 +141,8 @@ PROPS["C20"] = dict(
 
 PROPS["C16"] = dict(
     harness="p_sem",
-    phases=dict(quick=[rc(8, 800), rc(8, 5000, flavour="fast", seed_offset=100)],
-                thorough=[rc(16, 10000), rc(16, 100000, flavour="fast", seed_offset=100)]),
+    phases=dict(quick=[rc(6, 800), rc(6, 5000, flavour="fast", seed_offset=100), rc(4, 3000, harness="p_accept", seed_offset=200)],
+                thorough=[rc(12, 10000), rc(12, 100000, flavour="fast", seed_offset=100), rc(8, 60000, harness="p_accept", seed_offset=200)]),
     rule=("cases: (accept direction) typed random programs, two thirds of them using neither WHILE nor GOTO with LOOP bodies that assign "
           "their own bound. Oracle: the EXEC call graph of the emitted code is acyclic, the activation stack never exceeds definitions+1 "
           "after any instruction, LOOP-only programs halt within the budget proportional to the reference step count and end in the "
@@ -157,6 +157,29 @@ PROPS["C16"] = dict(
 )
 
 
+PROPS["C04"] = dict(
+    harness="p_accept",
+    phases=dict(quick=[enum(8), rc(8, 2500)], thorough=[enum(16), rc(16, 60000)]),
+    rule=("cases: generated valid macro-free sources (free layout, all keyword spellings, +/- sugar, optionally split over two files) "
+          "unmutated (30%), with 1-4 token deletions/insertions/replacements/adjacent swaps/truncations over the language vocabulary plus "
+          "junk tokens (60%), token soup (10%); plus every single-token edit of 2 (quick) / 3 (thorough) fixed base programs. Oracle: "
+          "reference lexer -> sugar -> recursive-descent recogniser of the documented LL(1) grammar -> static rules (calls bind to the "
+          "latest complete earlier definition with equal arity, builtin __INC__/__DEC__ form, jump targets are labels of the same body, "
+          "literals < 2^31-1); generated_correctly must equal the verdict in both directions. Sources with duplicate labels/parameter "
+          "names or DEFINE are skipped and counted. Non-trivial: rejected cases with >=3 tokens and accepted cases that were mutated; "
+          "distinct by content hash."),
+    exhaustive_note=dict(quick="all single-token deletions, adjacent swaps, truncations, and replacements/insertions by each of 53 vocabulary tokens, of 2 base programs",
+                         thorough="all single-token deletions, adjacent swaps, truncations, and replacements/insertions by each of 74 vocabulary tokens, of 3 base programs"),
+    min_nontrivial=dict(quick=4000, thorough=50000),
+    assumptions=["the WHILE header is 'WHILE id != 0 DO' (the grammar comment omits the '!= 0' token the parser requires)",
+                 "sources needing >= 1000 sugar rewrites are not judged (macro pass budget)"],
+    technique="property-based testing: rapidcheck-generated sources and token-level mutants + exhaustive single-token edits vs a reference acceptor (grammar + static rules), both directions",
+    level_text=("Exploration with an exhaustive sub-space: acceptance by the compiler is compared with an independent recogniser of the documented "
+                "grammar and static rules on generated sources and their 1-4-edit neighbours, and on all single-token edits of fixed programs."),
+    level_note="trusted: reference lexer and acceptor (harness/ref/ref_accept.hpp)",
+)
+
+
 def run_check(chk, drv):
     cfg = chk.cfg
     binp = drv.build_harness(cfg["harness"], chk.th)
@@ -164,17 +187,20 @@ def run_check(chk, drv):
     special = cfg.get("special")
     if special == "dual_scanner":
         return dual_scanner(chk, drv, binp)
-    bins = {"asan": binp}
+    bins = {(cfg["harness"], "asan"): binp}
     phases = cfg["phases"][chk.tier]
     for ph in phases:
-        fl = ph.get("flavour", "asan")
-        if fl not in bins:
-            bins[fl] = drv.build_harness(cfg["harness"], chk.th, fl)
+        key = (ph.get("harness", cfg["harness"]), ph.get("flavour", "asan"))
+        if key not in bins:
+            bins[key] = drv.build_harness(key[0], chk.th, key[1])
+    for h in {k[0] for k in bins}:
+        if h != cfg["harness"]:
+            chk.run_replay_corpus(bins.get((h, "asan")) or drv.build_harness(h, chk.th), subdir=h)
     # all phases of a tier run concurrently (the machine has 16 cores; workers are single-threaded)
     spawned = []
     for k, ph in enumerate(phases):
-        fl = ph.get("flavour", "asan")
-        spawned.append(chk.spawn_phase(bins[fl], ph, tagprefix="%s%d-" % (fl, k)))
+        key = (ph.get("harness", cfg["harness"]), ph.get("flavour", "asan"))
+        spawned.append(chk.spawn_phase(bins[key], ph, tagprefix="%s-%s%d-" % (key[0], key[1], k)))
     for ws in spawned:
         chk.collect_phase(ws)
     return chk.finish()
